@@ -111,6 +111,8 @@ def main():
                 a = subprocess.run(["patch", "-p1", "-s", "-d", SCRATCH, "-i", patch])
             env["VERIF_REPO"] = SCRATCH
             env["VERIF_OUT_DIR"] = OUT
+            env["VERIF_WORK_DIR"] = "/tmp/vseed_work"
+            env["VERIF_CACHE_DIR"] = "/tmp/vseed_cache"
         if a.returncode != 0:
             print(f"{sid}: patch does not apply")
             results[sid] = {"error": "patch does not apply"}
